@@ -270,13 +270,20 @@ Definition parse_decimal (s : list byte) : option (Z * Z) :=
 (* ASCII upper-casing by clearing bit 0x20, as parse_inf_nan does *)
 Definition clear_case (b : byte) : N := N.land (Byte.to_N b) 223.
 
-Definition parse_inf_nan (neg : bool) (s : list byte) : option f64 :=
-  match map clear_case s with
-  | [73; 78; 70]%N => Some (S754_infinity neg)                      (* INF *)
-  | [73; 78; 70; 73; 78; 73; 84; 89]%N => Some (S754_infinity neg)  (* INFINITY *)
-  | [78; 65; 78]%N => Some S754_nan                                 (* NAN *)
-  | _ => None
+Fixpoint N_list_eqb (a b : list N) : bool :=
+  match a, b with
+  | [], [] => true
+  | x :: a', y :: b' => N.eqb x y && N_list_eqb a' b'
+  | _, _ => false
   end.
+
+Definition parse_inf_nan (neg : bool) (s : list byte) : option f64 :=
+  let u := map clear_case s in
+  if N_list_eqb u [73; 78; 70]%N                                (* INF *)
+     || N_list_eqb u [73; 78; 70; 73; 78; 73; 84; 89]%N         (* INFINITY *)
+  then Some (S754_infinity neg)
+  else if N_list_eqb u [78; 65; 78]%N then Some S754_nan        (* NAN *)
+  else None.
 
 Definition parse_f64 (s : list byte) : option f64 :=
   match s with
